@@ -29,7 +29,7 @@ import socket
 import tempfile
 import time
 
-from ..collect import sig_of
+from ..collect import guarded, sig_of
 
 PROPERTY = "C18"
 LEVEL = "exploration"
@@ -519,14 +519,14 @@ def shards(tier: str, seed: int) -> list[dict]:
 def run_shard(desc: dict, col) -> None:  # noqa: ANN001
     for i, case in enumerate(all_cases(desc["tier"], desc["seed"])):
         if i % desc["of"] == desc["shard"]:
-            judge(case, col)
+            guarded(col, case, judge, case, col)
             if col.violation_count >= 6:
                 break
 
 
 def replay(case: dict, col) -> None:  # noqa: ANN001
     for _ in range(3):
-        judge(case, col)
+        guarded(col, case, judge, case, col)
 
 
 def finish(col, tier: str) -> None:  # noqa: ANN001
